@@ -11,6 +11,8 @@ CONSTANTS
   GodMode = "address"
   DemesMode = "pure"
   PerturbMode = "pure"
+  HashMode = "ordered"
+  SFSMode = "copies"
   MaxTable = 60
 SPECIFICATION Spec
 CHECK_DEADLOCK FALSE
@@ -20,6 +22,7 @@ INVARIANT TypeOK
 INVARIANT AlphabetOK
 INVARIANT TablesSound
 INVARIANT ResultIndependentOfHistory
+INVARIANT ResultIndependentOfHashSeed
 INVARIANT LayoutIndependent
 INVARIANT ArgumentsUnchanged
 INVARIANT ResultIsFresh
